@@ -672,3 +672,184 @@ Proof.
   destruct (store_ok_reachable prog store0 HF store_ok_initial) as (_ & _ & HS).
   destruct (HS _ _ Hin) as (H1 & H2 & H3 & _). repeat split; assumption.
 Qed.
+
+(* ================= sequencing entries only at filled positions ================= *)
+Definition keys_ok (st : store) : Prop := forall r s, In (r, s) (sqs st) -> seq_keys_sub s.
+
+Lemma ks_empty : seq_keys_sub seq_empty.
+Proof. intros k []. Qed.
+
+Lemma ks_same (s s' : seq) : sdata s' = sdata s -> sseq s' = sseq s -> seq_keys_sub s -> seq_keys_sub s'.
+Proof. unfold seq_keys_sub. intros -> ->. exact (fun H => H). Qed.
+
+Lemma ks_setsr SR : seq_keys_sub (seq_set_sr seq_empty SR).
+Proof. intros k []. Qed.
+
+Lemma ks_blank s : seq_keys_sub s -> seq_keys_sub (mkSeq [] [] (sspecs s) []).
+Proof. intros _ k []. Qed.
+
+Lemma ks_put s pos (x : entry) q sp nm :
+  seq_keys_sub s -> seq_keys_sub (mkSeq (aset Z.eqb pos x (sdata s)) (aset Z.eqb pos q (sseq s)) sp nm).
+Proof.
+  unfold seq_keys_sub; cbn [sdata sseq]. intros H k Hin.
+  apply al_keys_sub in Hin as [->|Hin].
+  - apply al_keys_self.
+  - apply (al_keys_mono Z.eqb Z.eqb_eq). apply H. exact Hin.
+Qed.
+
+Lemma ks_addE s k e : seq_keys_sub s -> seq_keys_sub (fst (seq_add_element s k e)).
+Proof.
+  intro H. unfold seq_add_element. destruct (el_validate e); [|exact H].
+  unfold ok; cbn [fst]. apply ks_put. exact H.
+Qed.
+
+Lemma ks_add_sub s pos sub : seq_keys_sub s -> seq_keys_sub (fst (seq_add_sub s pos sub)).
+Proof.
+  intro H. unfold seq_add_sub.
+  destruct (existsb (fun p : Z * entry => entry_is_sub (snd p)) (sdata sub)); [exact H|].
+  destruct (negb (val_eqb (seq_SR sub) (seq_SR s))); [exact H|].
+  unfold ok; cbn [fst]. apply ks_put. exact H.
+Qed.
+
+Lemma ks_upd_any s k (x : entry) : seq_keys_sub s -> seq_keys_sub (set_sdata s (aset Z.eqb k x (sdata s))).
+Proof.
+  unfold seq_keys_sub, set_sdata; cbn [sdata sseq]. intros H k0 Hin.
+  apply (al_keys_mono Z.eqb Z.eqb_eq). apply H. exact Hin.
+Qed.
+
+Lemma ks_upd s k e e' :
+  seq_keys_sub s -> alookup Z.eqb k (sdata s) = Some (EElem e) -> (True -> True) ->
+  seq_keys_sub (set_sdata s (aset Z.eqb k (EElem e') (sdata s))).
+Proof. intros H _ _. apply ks_upd_any. exact H. Qed.
+
+Lemma ks_set_sequencing s pos f v : seq_keys_sub s -> seq_keys_sub (fst (seq_set_sequencing s pos f v)).
+Proof.
+  intro H. unfold seq_set_sequencing. destruct (alookup Z.eqb pos (sseq s)) as [q|] eqn:El; [|exact H].
+  unfold ok, set_sseq, seq_keys_sub; cbn [fst sdata sseq]. intros k Hin.
+  apply al_keys_sub in Hin as [->|Hin]; apply H; [|exact Hin].
+  apply (alookup_in_keys pos q). exact El.
+Qed.
+
+Lemma ks_set_filter s c k o f t : seq_keys_sub s -> seq_keys_sub (fst (seq_set_filter s c k o f t)).
+Proof.
+  intro H. unfold seq_set_filter.
+  destruct (negb (str_eqb k (S_ "HP") || str_eqb k (S_ "LP"))); [exact H|].
+  destruct o as [o|]; [|exact H].
+  destruct (negb (val_is_none f) && negb (val_is_none t)); exact H.
+Qed.
+
+Lemma ks_add a b c : seq_keys_sub a -> seq_keys_sub b -> seq_add a b = Ok c -> seq_keys_sub c.
+Proof.
+  intros Ha Hb H. apply seq_add_form in H. subst c. unfold seq_keys_sub; cbn [sdata sseq]. intros k Hin.
+  apply ms_keys_sub in Hin as [Hin|(k' & Hin & ->)].
+  - apply ms_keys_l. apply Ha. exact Hin.
+  - rewrite akeys_valmap' in Hin. apply ms_keys_r. apply Hb. exact Hin.
+Qed.
+
+Lemma ks_on_seq_elem s pos f : seq_keys_sub s -> seq_keys_sub (fst (on_seq_elem s pos f)).
+Proof.
+  intro H. apply (on_seq_elem_pres seq_keys_sub (fun _ => True)); [exact ks_upd|intros; exact I|exact H].
+Qed.
+
+Lemma make_varying_ks base cs ns ars its s : make_varying base cs ns ars its = Ok s -> seq_keys_sub s.
+Proof.
+  apply (make_varying_pres seq_keys_sub (fun _ => True) ks_setsr); [|exact ks_upd|intros; exact I|exact I].
+  intros s0 k e Hs _. apply ks_addE. exact Hs.
+Qed.
+
+Lemma make_linear_ks base c n a start stop stp s : make_linear base c n a start stop stp = Ok s -> seq_keys_sub s.
+Proof.
+  apply (make_linear_pres seq_keys_sub (fun _ => True) ks_setsr); [|intros; exact I|exact I].
+  intros s0 k e Hs _. apply ks_addE. exact Hs.
+Qed.
+
+Lemma repeat_and_vary_ks sq ps cs ns ars its r :
+  seq_keys_sub sq -> repeat_and_vary sq ps cs ns ars its = Ok r -> seq_keys_sub r.
+Proof.
+  apply (repeat_and_vary_pres seq_keys_sub (fun _ => True) ks_blank ks_upd ks_add). intros; exact I.
+Qed.
+
+Lemma keys_ok_initial : keys_ok store0.
+Proof. intros r s []. Qed.
+
+Lemma keys_eq st st' : sqs st' = sqs st -> keys_ok st -> keys_ok st'.
+Proof. unfold keys_ok. intros E Hs r s Hin. rewrite E in Hin. eapply Hs; exact Hin. Qed.
+
+Lemma onB_sqs st r f : sqs (fst (onB st r f)) = sqs st.
+Proof. unfold onB. destruct (getB st r) as [x|e]; [destruct (f x)|]; reflexivity. Qed.
+
+Lemma onE_sqs st r f : sqs (fst (onE st r f)) = sqs st.
+Proof. unfold onE. destruct (getE st r) as [x|e]; [destruct (f x)|]; reflexivity. Qed.
+
+Lemma putS_keys st r s : keys_ok st -> seq_keys_sub s -> keys_ok (putS st r s).
+Proof.
+  unfold keys_ok, putS; cbn [sqs]. intros HS Hs r' s' Hin.
+  apply In_aset in Hin as [E|Hin]; [inversion E; subst; exact Hs | eapply HS; exact Hin].
+Qed.
+
+Lemma getS_keys st r s : keys_ok st -> getS st r = Ok s -> seq_keys_sub s.
+Proof.
+  intros HS H. unfold getS in H.
+  destruct (alookup Nat.eqb r (sqs st)) as [b0|] eqn:E; [|discriminate H].
+  inversion H; subst. apply alookup_In in E as (k & Hin). eapply HS; exact Hin.
+Qed.
+
+Lemma onS_keys st r f :
+  keys_ok st -> (forall s, seq_keys_sub s -> seq_keys_sub (fst (f s))) -> keys_ok (fst (onS st r f)).
+Proof.
+  intros Hs Hf. unfold onS. destruct (getS st r) as [b|e] eqn:E; [|exact Hs].
+  pose proof (Hf b (getS_keys _ _ _ Hs E)) as Hb.
+  destruct (f b) as [b' o]. cbn [fst] in *. apply putS_keys; assumption.
+Qed.
+
+Ltac frame_sqs :=
+  first [ apply onB_sqs | apply onE_sqs | reflexivity
+        | match goal with |- context [match ?x with _ => _ end] => destruct x end; frame_sqs ].
+
+Lemma keys_ok_step : forall st o, modern_op o -> keys_ok st -> keys_ok (fst (exec st o)).
+Proof.
+  intros st o Ha Hs. destruct o; try (destruct Ha; fail); unfold exec; try exact Hs;
+    try (apply (keys_eq st); [frame_sqs | exact Hs]).
+  - (* SNew *) apply putS_keys; [exact Hs|exact ks_empty].
+  - apply onS_keys; [exact Hs|]. intros x Hx. exact Hx.
+  - apply onS_keys; [exact Hs|]. intros x Hx. exact Hx.
+  - apply onS_keys; [exact Hs|]. intros x Hx. exact Hx.
+  - apply onS_keys; [exact Hs|]. intros x Hx. exact Hx.
+  - apply onS_keys; [exact Hs|]. intros x Hx. apply ks_set_filter; exact Hx.
+  - (* SAddElement *) destruct (getE st e) as [x|er]; [|exact Hs].
+    apply onS_keys; [exact Hs|]. intros q Hq. apply ks_addE; exact Hq.
+  - (* SAddSub *) destruct (getS st s2) as [x|er]; [|exact Hs].
+    apply onS_keys; [exact Hs|]. intros q Hq. apply ks_add_sub; exact Hq.
+  - apply onS_keys; [exact Hs|]. intros q Hq. apply ks_set_sequencing; exact Hq.
+  - (* SSetName *) apply onS_keys; [exact Hs|]. intros q Hq. exact Hq.
+  - (* SAdd *) destruct (getS st s1) as [a|er] eqn:E1; [|exact Hs].
+    destruct (getS st s2) as [b|er] eqn:E2; [|exact Hs].
+    destruct (seq_add a b) as [c|er] eqn:Ea; [|exact Hs].
+    apply putS_keys; [exact Hs|].
+    eapply ks_add; [eapply getS_keys; [exact Hs|exact E1]|eapply getS_keys; [exact Hs|exact E2]|exact Ea].
+  - (* SCopy *) destruct (getS st s) as [x|er] eqn:E; [|exact Hs].
+    apply putS_keys; [exact Hs|eapply getS_keys; eassumption].
+  - apply onS_keys; [exact Hs|]. intros q Hq. apply ks_on_seq_elem; exact Hq.
+  - apply onS_keys; [exact Hs|]. intros q Hq. apply ks_on_seq_elem; exact Hq.
+  - (* TVarying *) destruct (getE st e) as [x|er]; [|exact Hs].
+    destruct (make_varying x cs ns ars its) as [q|er] eqn:Em; [|exact Hs].
+    apply putS_keys; [exact Hs|]. eapply make_varying_ks; exact Em.
+  - (* TRepeat *) destruct (getS st s) as [x|er] eqn:E; [|exact Hs].
+    destruct (repeat_and_vary x ps cs ns ars its) as [q|er] eqn:Em; [|exact Hs].
+    apply putS_keys; [exact Hs|]. eapply repeat_and_vary_ks; [eapply getS_keys; eassumption|exact Em].
+  - (* TLinear *) destruct (getE st e) as [x|er]; [|exact Hs].
+    destruct (make_linear x c n a start stop stp) as [q|er] eqn:Em; [|exact Hs].
+    apply putS_keys; [exact Hs|]. eapply make_linear_ks; exact Em.
+Qed.
+
+Lemma keys_ok_reachable : forall prog st, Forall modern_op prog -> keys_ok st -> keys_ok (final_store st prog).
+Proof.
+  induction prog as [|o t IH]; intros st HF Hs; cbn [final_store]; [exact Hs|].
+  inversion HF as [|? ? Ho Ht]; subst. apply IH; [exact Ht|]. apply keys_ok_step; assumption.
+Qed.
+
+Lemma reachable_sequencing_at_positions : forall prog r s,
+  Forall modern_op prog -> In (r, s) (sqs (final_store store0 prog)) -> seq_keys_sub s.
+Proof.
+  intros prog r s HF Hin. exact (keys_ok_reachable prog store0 HF keys_ok_initial r s Hin).
+Qed.
